@@ -24,6 +24,7 @@ import builtins
 import itertools
 import operator
 import posixpath
+import re
 from pathlib import PurePosixPath
 
 from core.loader import ClassInfo, FuncInfo, ModuleInfo, Repo
@@ -213,7 +214,12 @@ LIB_FUNCS = {
     "itertools.pairwise": itertools.pairwise, "itertools.repeat": itertools.repeat, "itertools.count": None,
     "operator.add": operator.add, "operator.eq": operator.eq, "operator.ne": operator.ne,
     "typing.cast": lambda t, v: v,
+    # stdlib regular expressions on plain strings are pure (patterns are data of the analysed code, the engine is the library's)
+    "re.match": re.match, "re.fullmatch": re.fullmatch, "re.search": re.search, "re.sub": re.sub, "re.split": re.split, "re.findall": re.findall,
+    "re.escape": re.escape, "re.compile": re.compile,
 }
+RE_PATTERN_ATTRS = {"match", "fullmatch", "search", "sub", "split", "findall", "pattern"}
+RE_MATCH_ATTRS = {"group", "groups", "start", "end", "span", "groupdict", "string"}
 TRANSPARENT_DECORATORS = {"staticmethod", "classmethod", "property", "abstractmethod", "override", "final", "lru_cache", "cache", "cached_property", "no_type_check"}
 LIB_MODULES = {"os", "os.path", "pathlib", "itertools", "functools", "operator", "typing", "collections", "collections.abc"}
 
@@ -1076,6 +1082,10 @@ class Evaluator:
             if attr in ("resolve", "absolute", "expanduser") and o.is_absolute():
                 return model(lambda *a, **k: PurePosixPath(posixpath.normpath(str(o))))  # the model file system has no symlinks
             raise Unknown(f"Path.{attr} (file system access is not evaluated)")
+        if isinstance(o, re.Pattern) and attr in RE_PATTERN_ATTRS:
+            return getattr(o, attr)
+        if isinstance(o, re.Match) and attr in RE_MATCH_ATTRS:
+            return getattr(o, attr)
         if isinstance(o, (Fn, Bound, Closure, Partial)):
             if attr == "__name__" and isinstance(o, Fn):
                 return o.fi.name
@@ -1312,6 +1322,7 @@ class Evaluator:
             ok = (
                 (isinstance(recv, str) and name in STR_METHODS) or (isinstance(recv, list) and name in LIST_METHODS) or (isinstance(recv, tuple) and name in TUPLE_METHODS)
                 or (isinstance(recv, dict) and name in DICT_METHODS) or (isinstance(recv, (set, frozenset)) and name in SET_METHODS) or (isinstance(recv, PurePosixPath) and name in PATH_METHODS)
+                or (isinstance(recv, re.Pattern) and name in RE_PATTERN_ATTRS) or (isinstance(recv, re.Match) and name in RE_MATCH_ATTRS)
             )
         if not ok:
             raise Unknown(f"call of {getattr(f, '__qualname__', type(f).__name__)}")
